@@ -53,15 +53,23 @@ def run(tier):
     cfg = work + "/fs.cfg"
     # the tree of this run is what the model with SortBeforeScan = <tree has sorted scan> describes; we check
     # both variants of the model: the property holds in one, and the other is the catalogued deviation
-    write_cfg(cfg, spec="Spec", constants={"Ids": {1, 2} if tier == "quick" else {1, 2, 3}, "SortBeforeScan": True, "Emit": False},
-              invariants=["OrderIndependent"], deadlock=False)
-    r = run_tlc("FsScan", cfg, workers=16, timeout=1800)
-    ev.tlc(r, "FsScan (entries sorted before the scan)")
-    if not r["ok"]:
-        print("MODEL-FAILURE: FsScan violates %s" % r["violated"])
+    for upper in (False, True):
+        write_cfg(cfg, spec="Spec", constants={"Ids": {1, 2} if tier == "quick" else {1, 2, 3}, "SortBeforeScan": True, "Emit": False, "Upper": upper, "ScanCaseFold": False},
+                  invariants=["OrderIndependent"], deadlock=False)
+        r = run_tlc("FsScan", cfg, workers=16, timeout=1800)
+        ev.tlc(r, "FsScan (entries sorted before the scan)%s" % (", family with d and D" if upper else ""))
+        if not r["ok"]:
+            print("MODEL-FAILURE: FsScan violates %s" % r["violated"])
+            ev.write()
+            return 2
+    write_cfg(cfg, spec="Spec", constants={"Ids": {1, 2}, "SortBeforeScan": True, "Emit": False, "Upper": True, "ScanCaseFold": True}, invariants=["OrderIndependent"], deadlock=False)
+    r = run_tlc("FsScan", cfg, workers=8, timeout=600)
+    ev.tlc(r, "dev ScanCaseFold")
+    if not r["violated"]:
+        print("SELF-CHECK-FAILED: deviation ScanCaseFold has no counterexample")
         ev.write()
         return 2
-    write_cfg(cfg, spec="Spec", constants={"Ids": {1, 2}, "SortBeforeScan": False, "Emit": False},
+    write_cfg(cfg, spec="Spec", constants={"Ids": {1, 2}, "SortBeforeScan": False, "Emit": False, "Upper": False, "ScanCaseFold": False},
               invariants=["OrderIndependent"], deadlock=False)
     r = run_tlc("FsScan", cfg, workers=8, timeout=600)
     ev.tlc(r, "dev PrimaryIsFirstSeen")
@@ -73,10 +81,12 @@ def run(tier):
     # control: the shim must really permute (a tree without links must be accepted identically under permutation,
     # and the log of names must differ) - checked below through the 'control' group.
     # ---- R: every (tree, permutation) of the model --------------------------------------------------
-    write_cfg(cfg, spec="Spec", constants={"Ids": {1, 2}, "SortBeforeScan": False, "Emit": True}, invariants=["EmitOK"], deadlock=False)
-    r = run_tlc("FsScan", cfg, workers=4, timeout=900)
-    ev.tlc(r, "FsScan emit")
-    recs = bpbind.parse_emitted(r["out"])
+    recs = []
+    for upper in (False, True):
+        write_cfg(cfg, spec="Spec", constants={"Ids": {1, 2}, "SortBeforeScan": False, "Emit": True, "Upper": upper, "ScanCaseFold": False}, invariants=["EmitOK"], deadlock=False)
+        r = run_tlc("FsScan", cfg, workers=4, timeout=900)
+        ev.tlc(r, "FsScan emit%s" % (" (d and D)" if upper else ""))
+        recs += bpbind.parse_emitted(r["out"])
     groups = {}
     for x in recs:
         key = json.dumps(sorted((tuple(f["p"]), f["id"]) for f in x["files"]))
@@ -89,7 +99,8 @@ def run(tier):
     sel = linked + others[:10 if tier == "quick" else 200]
     if tier == "quick":
         rng.shuffle(linked)
-        sel = linked[:60] + others[:10]
+        twocase = [k for k in linked if '"D"' in k and '"d"' in k]               # a link group and both directories d and D: all of them
+        sel = twocase + [k for k in linked if k not in twocase][:60] + others[:10]
     replays = 0
 
     def do(gi):
